@@ -26,6 +26,8 @@ pub fn run(cfg: &RunCfg) -> Ctx {
         all.merge(par_cases(cfg, "h2", cfg.n(100, 16 * 1500), || (), |_, rng, ctx, i| h2_case(rng, ctx, i)));
         all.floor("h2.calls", 50);
     }
+    all.floor("wire.trailers_requested_early", 20);
+    all.floor("wire.ok_status_with_trailing_metadata", 20);
     all.merge(par_cases(cfg, "accessors", cfg.n(25_000, 16 * 400_000), || (), |_, rng, ctx, _| accessor_case(rng, ctx)));
     for k in ["acc.bin_len_mod3.0", "acc.bin_len_mod3.1", "acc.bin_len_mod3.2", "acc.padded_peer_value", "acc.invalid_base64_value", "acc.repeated_key", "acc.mixed_case_key", "acc.binary_value_constructors", "acc.status_from_error_chain"] {
         all.floor(k, 10);
@@ -115,9 +117,20 @@ fn wire_case(rng: &mut Rng, ctx: &mut Ctx, idx: u64) {
     let n_resp_res = taint(rng, &mut init_md, &mut tag);
     let fails = rng.bool();
     let mut st = gen_status(rng);
-    let n_st_res = taint(rng, &mut st.meta, &mut tag);
     let streaming = matches!(shape, Shape::ServerStream | Shape::Bidi);
-    let up_front = fails && streaming && rng.bool();
+    // trailing metadata of a *successful* stream: tonic's way to attach it is to end the handler's
+    // stream with an OK status that carries the entries
+    let ok_trailing = fails && streaming && rng.chance(1, 4);
+    if ok_trailing {
+        st.code = 0;
+        st.message = String::new();
+        st.details = Vec::new();
+        if st.meta.is_empty() {
+            st.meta = gen_meta(rng, 4, false);
+        }
+    }
+    let n_st_res = taint(rng, &mut st.meta, &mut tag);
+    let up_front = fails && streaming && !ok_trailing && rng.bool();
     let k = if streaming { rng.urange(0, 2) } else { 1 };
     let script = Script {
         initial_md: init_md.clone(),
@@ -153,13 +166,21 @@ fn wire_case(rng: &mut Rng, ctx: &mut Ctx, idx: u64) {
     let (tap, rtap, ttap) = (lb.tap.clone(), lb.resp_tap.clone(), lb.trailers_tap.clone());
     let mut client = VerifClient::new(lb);
     let mut ex = Exec::new();
-    let view = match ex.block_on(200_000, do_call(&mut client, &spec, None)) {
+    // one streaming call in three asks for the trailers before it has read everything
+    let early: Option<usize> = if streaming && rng.chance(1, 3) { Some(rng.urange(0, k)) } else { None };
+    crate::svc::EARLY_TRAILERS.with(|c| c.set(early));
+    let out = ex.block_on(200_000, do_call(&mut client, &spec, None));
+    crate::svc::EARLY_TRAILERS.with(|c| c.set(None));
+    let view = match out {
         Out::Done(v) => v,
         _ => {
             ctx.violation("hang", "call did not complete".into());
             return;
         }
     };
+    if early.is_some() {
+        ctx.count("wire.trailers_requested_early");
+    }
     // what the client put on the wire
     let req_parts = tap.lock().unwrap();
     if let Some(p) = req_parts.first() {
@@ -204,8 +225,30 @@ fn wire_case(rng: &mut Rng, ctx: &mut Ctx, idx: u64) {
     // what the client API shows
     let mut stripped = script.clone();
     stripped.initial_md = strip_reserved(&init_md);
+    if let Some(j) = early {
+        // what follows the j-th message is drained by `trailers()`, not shown
+        stripped.msgs.truncate(j);
+    }
     if let Some(e) = stripped.end.as_mut() {
         e.meta = strip_reserved(&e.meta);
+    }
+    if ok_trailing {
+        ctx.count("wire.ok_status_with_trailing_metadata");
+        let want = spec_multimap(&stripped.end.as_ref().unwrap().meta);
+        stripped.end = None;
+        match (&view.end, &view.trailer_meta) {
+            (Some(Ok(())), Some(t)) => {
+                if let Err(e) = multimap_includes(t, &want) {
+                    ctx.violation_class("client-trailing-metadata-of-ok-stream", if pad { "padding-peer" } else { "plain-peer" }, e);
+                }
+            }
+            (Some(Ok(())), None) => {
+                if !want.is_empty() {
+                    ctx.violation_class("client-trailing-metadata-of-ok-stream", if pad { "padding-peer" } else { "plain-peer" }, "the stream ended OK but trailers() returned nothing; the handler attached trailing metadata".into());
+                }
+            }
+            _ => {}
+        }
     }
     for (d, what) in judge_call(shape, &stripped, &view) {
         ctx.violation_class(&format!("client-{}", d), if pad { "padding-peer" } else { "plain-peer" }, what);
